@@ -3,8 +3,13 @@
 script = ';'-separated ops, payloads hex-encoded UTF-8:
   L<hex> labtech.logger.info(s) · W<hex> sys.stdout.write(s) · X<hex> sys.stderr.write(s) ·
   P<hex> print(s) · Q<hex> print(s, file=sys.stderr) · O sys.stdout.flush() · E sys.stderr.flush() ·
-  S<ms> time.sleep(ms/1000) · F raise ValueError
+  S<ms> time.sleep(ms/1000) · F raise ValueError ·
+  R<n>:<base> n logger.info records 'burst @@k.<base+i>@' in a tight loop ·
+  T<n>:<base> n times print('line @@k.<base+i>@') + sys.stdout.flush() ·
+  K os.kill(os.getpid(), SIGKILL): the worker process dies hard (no finally, no flush)
 """
+import os
+import signal
 import sys
 import time
 
@@ -38,4 +43,16 @@ class LogTask:
                 time.sleep(int(arg) / 1000.0)
             elif c == 'F':
                 raise ValueError('task %d fails' % self.k)
+            elif c == 'R':
+                n, base = (int(x) for x in arg.split(':'))
+                for i in range(n):
+                    labtech.logger.info('burst @@%d.%d@' % (self.k, base + i))
+            elif c == 'T':
+                n, base = (int(x) for x in arg.split(':'))
+                for i in range(n):
+                    print('line @@%d.%d@' % (self.k, base + i))
+                    sys.stdout.flush()
+            elif c == 'K':
+                os.kill(os.getpid(), signal.SIGKILL)
+                time.sleep(60)
         return self.k
